@@ -61,3 +61,14 @@ Theorem C09_source_write_copies_key : forall v ttl at_,
   run_write fn_syncMap_Write v ttl at_ = Some (write_spec false "TraitEntry" v ttl at_).
 Proof. exact tie_write. Qed.
 Print Assumptions C09_source_write_copies_key.
+
+From Cache Require Import TieGet.
+
+(* Failover.Get and FailoverOf.Get follow the model's single-thread path on every one of the 7680 combinations of
+   configuration and call-out outcomes: same reads, stale re-store, failure-cache hit, build (before or after the
+   return), warning, returned and published (value, error), election and release inside f.lock, key copy before a
+   background build — here: the key copy the background build and its release work on *)
+Theorem C09_source_get_follows_model : forall i,
+  src_obs Failover.Legacy i = Some (model_obs Failover.Legacy i) /\ src_obs Failover.Generic i = Some (model_obs Failover.Generic i).
+Proof. intros i; split; [exact (tie_get_legacy i)|exact (tie_get_generic i)]. Qed.
+Print Assumptions C09_source_get_follows_model.
